@@ -5,3 +5,16 @@ open LasModel.Props.C19
 #print axioms splitRecs_prefix
 #print axioms C19_records_prefix
 #print axioms image_single
+#print axioms decInts_getD
+#print axioms parseHdr_fields
+#print axioms mix_slice
+#print axioms C19_header_rewrite
+#print axioms encForm_slices
+#print axioms C19_rewrite_session
+#print axioms C19_short_file
+#print axioms image_seq
+#print axioms C19_writer_crash
+#print axioms C19_intact_header
+#print axioms image_over
+#print axioms C19_appender_crash
+#print axioms C19_truncated
